@@ -55,6 +55,8 @@ func HarnessC09_NonInterference() {
 	remote := vfBool("remote")
 	stopAt := vfPick("replies", 4, 8) // also error exits: the reply stops early
 	goodKey := vfBool("goodkey")
+	// the encryption of the k-th secret may fail (e.g. a secret too long for the key)
+	hOAEPFailAt = vfPick("oaepFailAt", 0, 4)
 	a := c09Login(pw1, rp1, true, remote, stopAt, goodKey)
 	b := c09Login(pw2, rp2, true, remote, stopAt, goodKey)
 	vfAssert((a.err == nil) == (b.err == nil), "the outcome does not depend on the secrets")
